@@ -1078,7 +1078,7 @@ struct Runner {
 		double t_begin = drv::now();
 		auto one = [&](const Mutation &m) {
 			if (stop) return;
-			if (T.stride > 1 && (nth++ % T.stride) != 0) return;
+			if (T.stride > 1 && m.id[0] != 'x' && (nth++ % T.stride) != 0) return;   // ids "x..." = structure-aware extras, never thinned
 			std::string cid = T.name + "/" + T.seedname + "/" + m.id;
 			if (!R.mine() || !R.selected(cid))
 				return;
